@@ -160,6 +160,11 @@ func TestVerifC08Sock(t *testing.T) {
 			// error (validQUICMsg closes the connection), not a valid input
 			c.Req.KA = false
 		}
+		if v.proto == "dns-udp" && c.Req.NSIDLen > 4 {
+			// the plain-DNS server reads datagrams into ConfigDNS.UDPSize = 512
+			// bytes: a longer query is not a valid input on this transport
+			c.Req.NSIDLen = 4
+		}
 		if (v.proto == "dns-udp" || v.proto == "dnscrypt-udp") && c.Shape.Target > 40000 {
 			c.Shape.Target = 20000 + rng.Intn(20000) // far above every datagram limit used here
 		}
@@ -177,7 +182,42 @@ func TestVerifC08Sock(t *testing.T) {
 		}
 	}
 
+	// directed: a query whose NSID option carries data, over DNSCrypt/UDP (the
+	// plain-DNS server does not read datagrams of that size)
+	for _, sz := range []uint16{0, 512, 1232} {
+		jobs = append(jobs, job{i: len(jobs), via: "dnscrypt-udp", c: dnsserver.VerifC08Case{Proto: "dnscrypt-udp",
+			Req: dnsserver.VerifC08Req{Opt: true, Size: sz, NSID: true, NSIDLen: 600}, Cfg: dns.MaxMsgSize,
+			Shape: dnsserver.VerifC08Shape{Kind: "manyA", Bulk: "an", Fill: "an", HOpt: "none", Target: 300}}})
+	}
+
 	res := make([]dnsserver.VerifC08Obs, len(jobs))
+	exchange := func(k int) {
+		j := jobs[k]
+		name := j.c.Shape.Name(j.i)
+		req := dnsserver.VerifC08BuildReq(name, uint16(1000+j.i), j.c.Req)
+		payload, err := req.Pack()
+		if err != nil {
+			panic(err)
+		}
+		orig := dnsserver.VerifC08BuildResp(req, j.c.Shape)
+		var replies [][]byte
+		var note string
+		enc := 0
+		switch j.via {
+		case "dnscrypt-udp":
+			replies, enc, note = dc.exchange("udp", payload, 8*main.Wait)
+		case "dnscrypt-tcp":
+			replies, enc, note = dc.exchange("tcp", payload, 8*main.Wait)
+		default:
+			r := labs[j.c.Cfg].SendRaw(j.via, payload)
+			replies, note = r.Replies, r.Note
+		}
+		o := dnsserver.VerifC08Observe("sock", j.via, j.c.Proto, name, j.c.Req, j.c.Cfg, j.c.Shape, orig, replies)
+		o.Enc = enc
+		o.Note = strings.TrimSpace(o.Note + " " + note)
+		o.Vec = dnsserver.VerifC08Vec(&o, dnsserver.VerifC08Limit(j.c.Proto, j.c.Req, j.c.Cfg))
+		res[k] = o
+	}
 	var wg sync.WaitGroup
 	ch := make(chan int)
 	for w := 0; w < par; w++ {
@@ -185,33 +225,7 @@ func TestVerifC08Sock(t *testing.T) {
 		go func() {
 			defer wg.Done()
 			for k := range ch {
-				j := jobs[k]
-				name := j.c.Shape.Name(j.i)
-				req := dnsserver.VerifC08BuildReq(name, uint16(1000+j.i), j.c.Req)
-				payload, err := req.Pack()
-				if err != nil {
-					panic(err)
-				}
-				orig := dnsserver.VerifC08BuildResp(req, j.c.Shape)
-				var replies [][]byte
-				var note string
-				enc := 0
-				for attempt := 0; attempt < 3 && len(replies) == 0; attempt++ {
-					switch j.via {
-					case "dnscrypt-udp":
-						replies, enc, note = dc.exchange("udp", payload, time.Duration(attempt+1)*time.Second)
-					case "dnscrypt-tcp":
-						replies, enc, note = dc.exchange("tcp", payload, time.Duration(attempt+1)*time.Second)
-					default:
-						r := labs[j.c.Cfg].SendRaw(j.via, payload)
-						replies, note = r.Replies, r.Note
-					}
-				}
-				o := dnsserver.VerifC08Observe("sock", j.via, j.c.Proto, name, j.c.Req, j.c.Cfg, j.c.Shape, orig, replies)
-				o.Enc = enc
-				o.Note = strings.TrimSpace(o.Note + " " + note)
-				o.Vec = dnsserver.VerifC08Vec(&o, dnsserver.VerifC08Limit(j.c.Proto, j.c.Req, j.c.Cfg))
-				res[k] = o
+				exchange(k)
 			}
 		}()
 	}
@@ -220,6 +234,18 @@ func TestVerifC08Sock(t *testing.T) {
 	}
 	close(ch)
 	wg.Wait()
+	// a lost datagram or a slow machine must not look like a missing reply:
+	// unanswered queries are repeated one at a time with longer waits
+	for attempt := 1; attempt <= 2; attempt++ {
+		for _, l := range labs {
+			l.Wait = time.Duration(attempt) * 400 * time.Millisecond
+		}
+		for k := range jobs {
+			if !res[k].Sent {
+				exchange(k)
+			}
+		}
+	}
 	for _, o := range res {
 		out.Emit(o)
 	}
